@@ -255,6 +255,10 @@ def partitionQuadrants (m : MatrixMeta) (row column : Nat) :
 inductive MExpr where
   /-- a `Matrix` of the given size holding the ids `0..rows·columns` -/
   | leaf (rows columns : Nat)
+  /-- a column-major source: `MatrixRefTensor::from(TensorAccess::from(t, [r, c]))` over a tensor
+      `t` of shape `[(c, columns), (r, rows)]` holding the ids `0..rows·columns` (its
+      `data_layout` is `ColumnMajor`; cell `(i, j)` is the tensor's element `j·rows + i`) -/
+  | leafCM (rows columns : Nat)
   /-- `MatrixRange::from(e, rows, columns)` -/
   | range (e : MExpr) (rows columns : IndexRange)
   /-- `MatrixReverse::from(e, Reverse { rows, columns })` -/
@@ -304,10 +308,34 @@ def reverseUget (src : Nat → Nat → Outcome Nat) (rows columns : Nat) (fr fc 
     | .panic k => .panic k
     | .ok c => src r c
 
+/-- The checked getter of the column-major source.  The tensor, the `TensorAccess` and the
+    wrapper are the subject of C01/C02/C16; here their composition is taken in closed form (the
+    bounds checks of `get_index_direct` on the swapped coordinates, then `j * rows + i`). -/
+def cmGet (rows columns : Nat) (row column : Nat) : Outcome (Option Nat) :=
+  if column < columns ∧ row < rows then
+    match cmul column rows with
+    | .panic k => .panic k
+    | .ok p =>
+      match cadd p row with
+      | .panic k => .panic k
+      | .ok i => if i < rows * columns then .ok (some i) else .ok none
+  else .ok none
+
+/-- its unchecked getter (`get_index_direct(..).unwrap_unchecked()`, `get_unchecked`) -/
+def cmUget (rows columns : Nat) (row column : Nat) : Outcome Nat :=
+  match cmul column rows with
+  | .panic k => .panic k
+  | .ok p =>
+    match cadd p row with
+    | .panic k => .panic k
+    | .ok i => if i < rows * columns then .ok i else .panic .hook
+
 def MExpr.eval (A : Arith) : MExpr → Outcome (Except (Shape Bool) MViewU)
   | .leaf rows columns =>
     let m : MatrixMeta := ⟨rows * columns, rows, columns⟩
     .ok (.ok ⟨MView.ofMatrix m, m.uget⟩)
+  | .leafCM rows columns =>
+    .ok (.ok ⟨⟨rows, columns, cmGet rows columns⟩, cmUget rows columns⟩)
   | .range e rows columns =>
     match e.eval A with
     | .panic k => .panic k
@@ -341,6 +369,63 @@ def MExpr.eval (A : Arith) : MExpr → Outcome (Except (Shape Bool) MViewU)
         match MView.ofTensor t with
         | .panic k => .panic k
         | .ok v => .ok (.ok ⟨v, src.uget⟩)
+
+/-! ### `data_layout` and matrix equality -/
+
+/-- `matrices::views::DataLayout` -/
+inductive MLayout where
+  | rowMajor | columnMajor | other
+  deriving DecidableEq, Repr
+
+/-- `tensors::views::DataLayout<2>` as far as the wrappers look at it: linear with the matrix's
+    row dimension first or second, or not linear -/
+inductive TLayout2 where
+  | linear (rowsFirst : Bool) | nonLinear | other
+  deriving DecidableEq, Repr
+
+/-- `data_layout()` of each adaptor: a `Matrix` is row-major, a range and a map pass their
+    source's layout on, a reversal answers `Other`, `TensorRefMatrix` translates to the tensor
+    vocabulary and `MatrixRefTensor` back (src/interop/mod.rs:158-172, 263-288) -/
+def MExpr.layout : MExpr → MLayout
+  | .leaf _ _ => .rowMajor
+  | .leafCM _ _ => .columnMajor
+  | .range e _ _ => e.layout
+  | .reverse _ _ _ => .other
+  | .map e => e.layout
+  | .viaTensor e =>
+    let t : TLayout2 :=
+      match e.layout with
+      | .rowMajor => .linear true
+      | .columnMajor => .linear false
+      | .other => .other
+    match t with
+    | .linear true => .rowMajor
+    | .linear false => .columnMajor
+    | .nonLinear => .other
+    | .other => .other
+
+/-- a matrix-like source as equality sees it: a size, a layout and its elements -/
+structure Grid where
+  rows : Nat
+  columns : Nat
+  layout : MLayout
+  elem : Nat → Nat → Nat
+
+/-- `RowMajorReferenceIterator` / `ColumnMajorReferenceIterator` over the source -/
+def Grid.rowMajor (g : Grid) : List Nat := (indexPairs g.rows g.columns).map fun ij => g.elem ij.1 ij.2
+def Grid.columnMajor (g : Grid) : List Nat := (indexPairs g.columns g.rows).map fun ji => g.elem ji.2 ji.1
+
+/-- `matrix_equality` (src/matrices/views.rs:920-950), the function behind the three `PartialEq`
+    impls (`MatrixView == MatrixView`, `MatrixView == Matrix`, `Matrix == MatrixView`): sizes,
+    then an elementwise comparison in column-major order when both sources are column-major and
+    in row-major order otherwise -/
+def matrixEquality (l r : Grid) : Bool :=
+  if l.rows ≠ r.rows then false
+  else if l.columns ≠ r.columns then false
+  else
+    match l.layout, r.layout with
+    | .columnMajor, .columnMajor => (l.columnMajor.zip r.columnMajor).all fun xy => xy.1 == xy.2
+    | _, _ => (l.rowMajor.zip r.rowMajor).all fun xy => xy.1 == xy.2
 
 /-! ### views that still give access to their source (C12, state after construction)
 
